@@ -109,6 +109,19 @@ CHECKS["C14"] = dict(
     design_ref="DESIGN.md#c14",
 )
 
+CHECKS["C10"] = dict(
+    category="exploration",
+    text="(1) The real expression evaluator and link constructor on expressions generated from the OAS ABNF (all variables, "
+    "mixed-case names, RFC 6901 pointers with escapes and hostile array tokens, 1-3 embedded holes, regex extractors) and on "
+    "malformed neighbours, against a reference evaluator, over random JSON bodies/headers/statuses. (2) Live stateful phases against "
+    "an API with links on exact codes, 2XX and default (operationId/operationRef, explicit and implicit locations, nested request "
+    "bodies): each link-derived request is paired through recorder parent ids and the test-case id header with its actual source "
+    "exchange in the API log and compared on the wire with what the expressions denote; the source status must match the link's key.",
+    note="Rendering of non-string values inside templates and '$' inside constants are not judged; the product's documented '}' rule is taken as given.",
+    technique="runtime monitoring: differential oracle (reference runtime-expression evaluator) + trace pairing over recorded stateful histories",
+    design_ref="DESIGN.md#c10",
+)
+
 NOT_APPLICABLE = {}
 
 
